@@ -43,6 +43,12 @@ fn sh(cmd: &str, args: &[&str]) -> Result<(), String> {
     Ok(())
 }
 
+/// take one of the metadata hosts' addresses off the loopback device / put it back (inside the private namespace): while it is
+/// away, connecting to it fails at once (no route), i.e. the host cannot be reached
+pub fn set_host_address(addr: &str, present: bool) -> Result<(), String> {
+    sh("ip", &["addr", if present { "add" } else { "del" }, &format!("{}/32", addr), "dev", "lo"])
+}
+
 /// users of the generated passwd: (name, uid, primary gid)
 pub const PASSWD: &[(&str, u32, u32)] = &[
     ("root", 0, 0),
